@@ -492,10 +492,13 @@ def timeout_base(rng: random.Random, i: int) -> dict:
     # make sure the root has at least one awaiting handler with a child that itself awaits a grandchild
     sc['handlers'].insert(0, {'bus': 0, 'pat': 0, 'kind': 'async', 'prog': [['sleep', rng.choice([0.05, 0.1])], ['disp', 1, rng.randrange(nb), 'fire', None, {}], ['disp', 1, rng.randrange(nb), 'await', rng.choice([None, 0, 0.05]), {}], ['sleep', 0.1]], 'cleanup': rng.choice([0, 0, 0.15, 0.4])})
     sc['handlers'].append({'bus': 0, 'pat': 0, 'kind': 'async', 'prog': [['sleep', 0.05]]})
-    if rng.random() < 0.3:
+    if rng.random() < 0.45:
         # top-level code waits for ONE handler result of the root (`await event.event_results[id]`) while that handler is still
         # pending behind an earlier one; the result's timeout clock starts with the wait, the handler's own only when it starts
         # (the LAST handler of the root, which itself awaits a child with a slow handler, is the one waited for)
+        # (a slow sibling in front of it: the waited-for handler starts late, so a waiter's own clock - started with the wait - can run
+        # out while that handler is well inside its own, later, time budget)
+        sc['handlers'].append({'bus': 0, 'pat': 0, 'kind': 'async', 'prog': [['sleep', rng.choice([0.2, 0.35])]]})
         sc['handlers'].append({'bus': 0, 'pat': 0, 'kind': 'async', 'prog': [['sleep', 0.05], ['disp', 3, rng.randrange(nb), 'await', None, {}], ['sleep', 0.05]]})
         sc['handlers'].append({'bus': rng.randrange(nb), 'pat': 3, 'kind': 'async', 'prog': [['sleep', 0.3]]})
         sc['actors'].append([['sleep', rng.choice([0.01, 0.06])], ['await_hresult', 0, 0, rng.choice([-1, -1, 1, 2])], ['sleep', 0.3], ['await_hresult', 0, 0, 0]])
